@@ -361,6 +361,34 @@ static void N(unary_case)(uint64_t idx, void *vctx)
         }
 #endif
     }
+#if PROP != 7
+    /* box arguments that live INSIDE the region they are applied to: the region's own extents, its first rectangle */
+    if (A) {
+        mbox ebox = ea.ext; uint64_t em = 0;
+        for (int j = 0; j < u->gy; j++) for (int i = 0; i < u->gx; i++) if (u->X[i] >= ebox.x1 && u->X[i + 1] <= ebox.x2 && u->Y[j] >= ebox.y1 && u->Y[j + 1] <= ebox.y2) em |= (uint64_t)1 << (j * u->gx + i);
+        {   FRESH_A();
+            RF(reset)(&ra, RF(extents)(&ra)); vf_count_transitions(1);
+            snprintf(what, sizeof what, "%s w=%d reset(r, extents(r)) A=%#llx[%s]", u->name, RW, (unsigned long long)A, N(cons_name)(A, ca));
+            canon_mask(u, em, &eres); N(judge)(&ra, &eres, what); RF(fini)(&ra);
+            if (vf_failed()) return; }
+        {   FRESH_A(); int nr; BT *rl = RF(rectangles)(&ra, &nr); mbox fb = { rl[0].x1, rl[0].y1, rl[0].x2, rl[0].y2 }; uint64_t fm = 0;
+            for (int j = 0; j < u->gy; j++) for (int i = 0; i < u->gx; i++) if (u->X[i] >= fb.x1 && u->X[i + 1] <= fb.x2 && u->Y[j] >= fb.y1 && u->Y[j + 1] <= fb.y2) fm |= (uint64_t)1 << (j * u->gx + i);
+            RF(reset)(&ra, &rl[0]); vf_count_transitions(1);
+            snprintf(what, sizeof what, "%s w=%d reset(r, &rectangles(r)[0]) A=%#llx[%s]", u->name, RW, (unsigned long long)A, N(cons_name)(A, ca));
+            canon_mask(u, fm, &eres); N(judge)(&ra, &eres, what); RF(fini)(&ra);
+            if (vf_failed()) return; }
+        {   FRESH_A();
+            int ret = RF(inverse)(&ra, &ra, RF(extents)(&ra)); vf_count_transitions(1);
+            snprintf(what, sizeof what, "%s w=%d inverse(r, r, extents(r)) A=%#llx[%s]", u->name, RW, (unsigned long long)A, N(cons_name)(A, ca));
+            canon_mask(u, em & ~A, &eres); N(expect_true)(ret, what); N(judge)(&ra, &eres, what); RF(fini)(&ra);
+            if (vf_failed()) return; }
+        {   FRESH_A(); RF(init)(&rd);
+            int ret = RF(inverse)(&rd, &ra, RF(extents)(&ra)); vf_count_transitions(1);
+            snprintf(what, sizeof what, "%s w=%d inverse(fresh, r, extents(r)) A=%#llx[%s]", u->name, RW, (unsigned long long)A, N(cons_name)(A, ca));
+            canon_mask(u, em & ~A, &eres); N(expect_true)(ret, what); N(judge)(&rd, &eres, what); RF(fini)(&ra); RF(fini)(&rd);
+            if (vf_failed()) return; }
+    }
+#endif
 #if PROP == 7
     /* contains_point at every grid line and one before it */
     {
